@@ -31,7 +31,11 @@ txmode directives), every number `t0` of files applied by earlier runs, every cr
   kind, any count, any revision table): a process that dies before the last operation of the command - the
   only COMMIT, if there is one - has changed nothing durable.
 
-PARTIAL: directories with failing statements under a crash in file / none mode, the re-run from a half-applied file of a
+* `crash_none_any` — `--tx-mode none` for ANY directory without directives (failing statements anywhere, any
+  count, any revision table): the state after a crash is exactly the operations performed before it, applied
+  in order - whatever ran is durable, nothing is ever undone.
+
+PARTIAL: directories with failing statements under a crash in file mode, the re-run from a half-applied file of a
 directive mix, crashes of the re-run itself in none mode (duplicates then add up: one per crash), and
 SQLite's own recovery are not covered by these theorems; the correspondence run covers them on the real
 engine.
@@ -40,6 +44,7 @@ import Lemmas.Tx
 import Lemmas.TxCount
 import Lemmas.TxMixed
 import Lemmas.TxAllAtomic
+import Lemmas.TxNonePlain
 
 namespace Props.C10
 open Atlas.Tx
@@ -458,5 +463,17 @@ example :
     let dir : List TFile := [{ ok := [true, true] }, { ok := [true] }, { ok := [true, false] }]
     (plan { mode := .all } dir {}).1.length = 17 ∧
     ∀ k < 17, crashAt {} (plan { mode := .all } dir {}).1 k = {} := by decide
+
+/-- **crash_none_any**: `--tx-mode none`, any directory without directives (failing statements anywhere), any
+count and revision table, any crash point: the durable state is the fold of the operations performed so far. -/
+theorem crash_none_any (cfg : Cfg) (hm : cfg.mode = .none) (dir : List TFile)
+    (hd : ∀ f ∈ dir, f.directive = none) (db : Db) (k : Nat) :
+    crashAt db (plan cfg dir db).1 k = ((plan cfg dir db).1.take k).foldl durApply db :=
+  plan_none_crash_any cfg hm dir hd db k
+
+/-- premises met: a failing statement in the second file; after 6 operations file 1 is complete and recorded. -/
+example :
+    let dir : List TFile := [{ ok := [true, true] }, { ok := [true, false] }]
+    crashAt {} (plan { mode := .none } dir {}).1 6 = { journal := [(0,0),(0,1)], revs := [⟨2,2,false⟩] } := by decide
 
 end Props.C10
